@@ -10,6 +10,7 @@ import (
 	"os"
 	"path/filepath"
 	"strings"
+	"time"
 
 	ccpb "github.com/google/go-tdx-guest/proto/checkconfig"
 	"github.com/google/go-tdx-guest/testing/testdata"
@@ -172,6 +173,19 @@ func c02Run(r *core.Run) {
 		q = qA.Clone()
 		q.Chain = world.ChainPEM(fleaf, fint, A.Root, false)
 		add("forged:intermediate-in-name-of-A-root", q, "A", world.MustReject, "intermediate is not signed by a pool root")
+	}
+	// 2a. a complete look-alike hierarchy whose leaf becomes valid only a little after the verification time
+	// (a freshly issued certificate as seen by a clock that lags): not anchored in the pool, whatever a
+	// verifier thinks about clock skew
+	{
+		for _, d := range []time.Duration{time.Second, 90 * time.Second, 4 * time.Minute, 26 * time.Hour} {
+			sp := w.P.PCKSp
+			sp.Serial = world.RandSerial(t)
+			sp.Win = world.Window{NotBefore: w.Times[world.TPck].Add(d), NotAfter: sp.Win.NotAfter}
+			qb, _ := quoteUnder(w, B, &sp)
+			add(fmt.Sprintf("fresh-leaf:quote-under-B-with-leaf-valid-from-now+%s", d), qb, "A", world.MustReject, "the chain is B's; that its leaf is not valid yet does not anchor it in A")
+		}
+		r.Probe("foreign_chain_with_leaf_not_yet_valid")
 	}
 	// 2b. an "intermediate" that carries the Platform CA's name and is signed by the trusted root's
 	// key but is not a CA certificate (basic constraints CA:FALSE); the leaf is issued by its key.
